@@ -413,6 +413,8 @@ struct seqset {
         int *len;
 };
 
+static char array_tail[4096] = "";
+
 static int read_seqset(const char *fn, struct seqset *s)
 {
         FILE *f = fopen(fn, "rb");
@@ -431,12 +433,16 @@ static int read_seqset(const char *fn, struct seqset *s)
                         return 1;
                 }
                 fgetc(f); /* newline */
-                s->seq[i] = malloc(s->len[i] + 1);
+                /* the array interface takes (pointer, length): what lies behind the given length in the caller's buffer is not
+                   part of the sequence.  The 'tail' step sets text that is put there (before the terminating 0). */
+                size_t tl = strlen(array_tail);
+                s->seq[i] = malloc(s->len[i] + tl + 1);
                 if (s->len[i] && fread(s->seq[i], 1, s->len[i], f) != (size_t)s->len[i]) {
                         fclose(f);
                         return 1;
                 }
-                s->seq[i][s->len[i]] = 0;
+                memcpy(s->seq[i] + s->len[i], array_tail, tl);
+                s->seq[i][s->len[i] + tl] = 0;
                 fgetc(f);
         }
         fclose(f);
@@ -586,6 +592,13 @@ int main(int argc, char **argv)
                                 fputs("null", out);
                         }
                         free_seqset(&s);
+#ifdef KALIGN_VERIF
+                        if (want_events || want_snaps || want_params) {
+                                fputs(",", out);
+                                dump_hook_state();
+                                reset_hook_state();
+                        }
+#endif
                 } else if (!strcmp(tok[0], "arr2msa") && nt >= 3) {
                         struct seqset s;
                         int sl = atoi(tok[1]);
@@ -627,6 +640,10 @@ int main(int argc, char **argv)
                                 rc = finalise_alignment(slot[sl]);
                         }
                         fprintf(out, "\"rc\":%d", rc);
+                } else if (!strcmp(tok[0], "tail")) {
+                        /* tail [text]: text placed behind the given length of every array-API buffer from now on */
+                        snprintf(array_tail, sizeof(array_tail), "%s", nt >= 2 ? tok[1] : "");
+                        fprintf(out, "\"rc\":0");
                 } else if (!strcmp(tok[0], "checkmsa") && nt >= 3) {
                         /* kalign_check_msa(msa, exit_on_error): duplicate names / duplicate sequences */
                         int sl = atoi(tok[1]);
